@@ -138,6 +138,11 @@ type sigCase struct {
 	Key   []interface{} `json:"key,omitempty"`
 	Sig   []interface{} `json:"sig,omitempty"`
 	Build []int         `json:"build,omitempty"`
+	// key identity: Equals(Eq[0], Eq[1])
+	Eq []interface{} `json:"eq,omitempty"`
+	// assembly by key: the members of ByKey sign and are added with AddSignature in the order Order
+	ByKey []interface{} `json:"bykey,omitempty"`
+	Order []int         `json:"order,omitempty"`
 }
 
 type sigOut struct {
@@ -145,6 +150,58 @@ type sigOut struct {
 	R map[string]string `json:"r"`
 	// build cases: which key's signature sits at each position after AddSignatureByIndex
 	Pos map[string][]int `json:"pos,omitempty"`
+	// by-key cases: number of signatures in the assembled multisignature
+	N map[string]int `json:"n,omitempty"`
+}
+
+// equals: Equals of two keys; a panic is an outcome
+func equals(a, b pc.PublicKey) (res string) {
+	defer func() {
+		if r := recover(); r != nil {
+			res = "panic: " + fmt.Sprint(r)
+		}
+	}()
+	if a.Equals(b) {
+		return "T"
+	}
+	return "F"
+}
+
+// signByKey: the signature of key tree v over msg; a multisignature key's is assembled with the real
+// AddSignature(sig, member, keys) - i.e. through getIndex / Equals - adding the members in the given order
+// (nested members assemble theirs in index order)
+func (in *inst) signByKey(v []interface{}, order []int, msg int) ([]byte, int) {
+	if v[0].(string) == "k" {
+		return in.good(int(v[1].(float64)), msg), 1
+	}
+	members := v[1].([]interface{})
+	outer := in.encKey(v).(pc.PublicKeyMultiSignature)
+	if order == nil {
+		for i := range members {
+			order = append(order, i)
+		}
+	}
+	var ms pc.MultiSig = pc.MultiSignature{}.NewMultiSignature()
+	for _, i := range order {
+		m := members[i].([]interface{})
+		sig, _ := in.signByKey(m, nil, msg)
+		var err error
+		ms, err = ms.AddSignature(sig, in.encKey(m), outer.Keys())
+		if err != nil {
+			panic("AddSignature: " + err.Error())
+		}
+	}
+	return ms.Marshal(), ms.NumOfSigs()
+}
+
+func (in *inst) byKey(v []interface{}, order []int) (res string, n int) {
+	defer func() {
+		if r := recover(); r != nil {
+			res = "panic: " + fmt.Sprint(r)
+		}
+	}()
+	sig, n := in.signByKey(v, order, 1)
+	return verify(in.encKey(v), msgs[1], sig), n
 }
 
 func sigsMode(seed int64) {
@@ -195,6 +252,17 @@ func sigsMode(seed int64) {
 				c := cases[i]
 				o := sigOut{I: c.I, R: map[string]string{}}
 				for _, inn := range insts {
+					if c.Eq != nil {
+						o.R[inn.name] = equals(inn.encKey(c.Eq[0].([]interface{})), inn.encKey(c.Eq[1].([]interface{})))
+						continue
+					}
+					if c.ByKey != nil {
+						if o.N == nil {
+							o.N = map[string]int{}
+						}
+						o.R[inn.name], o.N[inn.name] = inn.byKey(c.ByKey, c.Order)
+						continue
+					}
 					if c.Build != nil {
 						// MultiSignature built with the real AddSignatureByIndex, in the given order
 						var ms pc.MultiSig = pc.MultiSignature{}.NewMultiSignature()
